@@ -268,13 +268,18 @@ package lang
 //@ spec func argsOK(args []*Value) bool = forall k int :: 0 <= k && k < len(args) ==> args[k] != nil
 
 //@ func checkArg [C18,C16]
-//@   requires argsOK(args) && 0 <= index
+//@   requires 0 <= index && !$faulted
+//@   updates $faulted
+//@   ensures[C11] fault-latched: $faulted <==> err != nil
 //@   ensures[C18] ok-iff: (err == nil) <==> (0 <= index && index < len(args) && args[index].Tag == tag)
 //@   ensures[C18] ok-result: err == nil ==> result0 == args[index]
 //@   ensures[C01] errkind: err != nil ==> !isSyn(err) && !isRT(err) && !isJsonErr(err) && !isFlow(err)
 //@   modifies nothing
 
 //@ func checkArgCount [C15,C16]
+//@   requires !$faulted
+//@   updates $faulted
+//@   ensures[C11] fault-latched: $faulted <==> err != nil
 //@   ensures[C15] ok-iff: (err == nil) <==> len(args) == expectedCount
 //@   ensures[C01] errkind: err != nil ==> !isSyn(err) && !isRT(err) && !isJsonErr(err) && !isFlow(err)
 //@   modifies nothing
@@ -284,7 +289,7 @@ package lang
 //@   requires v != nil
 //@   modifies nothing
 //@ func Value.prettyStringInteral [C17]
-//@   requires v != nil && argsOK(rootValues)
+//@   requires v != nil
 //@   modifies spare(rootValues)
 
 // printf is specified step by step: every byte or piece appended to the builder is justified by the
@@ -292,7 +297,8 @@ package lang
 // output is exactly the builder's content.  That the steps compose to "the format with each directive
 // replaced" is lemma L18 (induction over the scan), not machine-checked.
 //@ func nativePrintf [C18,C20]
-//@   requires e != nil && argsOK(args)
+//@   implements Value.NativeFn
+//@   requires e != nil
 //@   after strconv.ParseInt: $numStr = arg0
 //@   after Value.PrettyString: $pretty = ret0
 //@   after (*strings.Builder).String: $sbFinal = ret0
@@ -306,5 +312,208 @@ package lang
 //@   ensures[C18] error-writes-nothing: err != nil ==> $out == old($out)
 //@   ensures[C18] success-writes-builder: err == nil ==> result0 == nil && $out == old($out) + $sbFinal
 //@   ensures[C01] errkind: err != nil ==> !isSyn(err) && !isRT(err) && !isJsonErr(err) && !isFlow(err)
-//@   loop 0 invariant scan: 0 <= i && i <= end && end == len(fmtStr) && 1 <= argIndex && $out == old($out)
-//@   loop 1 invariant width-scan: i < numEnd && numEnd <= end && end == len(fmtStr) && 0 <= i
+//@   loop 0 invariant scan: 0 <= i && i <= end && end == len(fmtStr) && 1 <= argIndex && $out == old($out) && !$faulted
+//@   loop 1 invariant width-scan: i < numEnd && numEnd <= end && end == len(fmtStr) && 0 <= i && !$faulted && $out == old($out)
+
+// ---------------------------------------------------------------- frames (C08, C20)
+
+//@ spec func frameOK(f *stackFrame) bool = f != nil && f.locals != nil && f.depth >= 0
+//@ spec func evOK(e *Evaluator) bool = e != nil && e.lexer != nil && frameOK(e.stackTop)
+
+//@ func Evaluator.pushFrame [C08,C20]
+//@   requires e != nil && (e.stackTop != nil ==> e.stackTop.depth >= 0)
+//@   ensures[C20] refused-iff-too-deep: (err != nil) <==> (old(e.stackTop) != nil && old(e.stackTop.depth) + 1 > callDepthLimit)
+//@   ensures[C20] limit-is-a-few-thousand: 1000 < callDepthLimit && callDepthLimit <= 8192
+//@   ensures[C08] refused-leaves-stack: err != nil ==> e.stackTop == old(e.stackTop)
+//@   ensures[C08] pushed: err == nil ==> fresh(e.stackTop) && e.stackTop != nil && e.stackTop.parent == old(e.stackTop) && e.stackTop.locals != nil && fresh(e.stackTop.locals) && len(e.stackTop.locals) == 0
+//@   ensures[C20] every-frame-counts: err == nil ==> e.stackTop.depth == (old(e.stackTop) == nil ? 0 : old(e.stackTop.depth) + 1)
+//@   ensures[C01] errkind: err != nil ==> !isSyn(err) && !isRT(err) && !isJsonErr(err) && !isFlow(err)
+//@   modifies e.stackTop
+
+//@ func Evaluator.popFrame [C08]
+//@   requires e != nil && e.stackTop != nil && e.stackTop.parent != nil
+//@   ensures[C08] popped: err == nil && e.stackTop == old(e.stackTop.parent)
+//@   modifies e.stackTop
+
+// ---------------------------------------------------------------- evaluator protocol (C01, C08, C11)
+
+// Fault latch (C11): set whenever a fault (any error that is not a control-flow sentinel) is created.
+// Every evaluator function starts with the latch clear and ends with it set exactly when it returns
+// a fault, so an error that is dropped anywhere breaks the next call's precondition or the
+// function's own postcondition; output primitives require the latch to be clear.
+//@ ghost $faulted bool
+
+// AST well-formedness: the children the evaluator dereferences are present.  Proved where the
+// parser builds the nodes, assumed where the evaluator loads them (type invariants).
+// Containers never hold nil cells, values, AST nodes or rules (assumed when an element is read from a
+// container that already existed, proved at every element store, append and map update).
+//@ eleminv nonnil *Cell *Value Expr Statement *Rule
+//@ spec func tokOKT(t Token) bool = t.Pos >= 0 && t.Len >= 0
+//@ typeinv Token tokOKT
+//@ spec func wfUnary(x ExprUnary) bool = x.Expr != nil
+//@ typeinv ExprUnary wfUnary
+//@ spec func wfBinary(x ExprBinary) bool = x.Left != nil && x.Right != nil
+//@ typeinv ExprBinary wfBinary
+//@ spec func wfCall(x ExprCall) bool = x.Func != nil
+//@ typeinv ExprCall wfCall
+//@ spec func wfMatch(x ExprMatch) bool = x.Value != nil
+//@ typeinv ExprMatch wfMatch
+//@ spec func wfMatchCase(x MatchCase) bool = x.Body != nil
+//@ typeinv MatchCase wfMatchCase
+//@ spec func wfKV(x ObjectKeyValue) bool = x.Value != nil
+//@ typeinv ObjectKeyValue wfKV
+//@ spec func wfFunction(x ExprFunction) bool = x.Body != nil
+//@ typeinv ExprFunction wfFunction
+//@ spec func wfStExpr(x StatementExpr) bool = x.Expr != nil
+//@ typeinv StatementExpr wfStExpr
+//@ spec func wfIf(x StatementIf) bool = x.Expr != nil && x.Body != nil
+//@ typeinv StatementIf wfIf
+//@ spec func wfWhile(x StatementWhile) bool = x.Expr != nil && x.Body != nil
+//@ typeinv StatementWhile wfWhile
+//@ spec func wfFor(x StatementFor) bool = x.PreExpr != nil && x.Expr != nil && x.PostExpr != nil && x.Body != nil
+//@ typeinv StatementFor wfFor
+//@ spec func wfForIn(x StatementForIn) bool = x.Ident != nil && x.Iterable != nil && x.Body != nil
+//@ typeinv StatementForIn wfForIn
+//@ spec func wfRule(x Rule) bool = x.Body != nil
+//@ typeinv Rule wfRule
+//@ spec func wfFrame(f stackFrame) bool = f.locals != nil && f.depth >= 0
+//@ typeinv stackFrame wfFrame
+
+//@ spec func isFault(err error) bool = err != nil && !isFlow(err)
+//@ spec func isPlainErr(err error) bool = err != nil && !isSyn(err) && !isRT(err) && !isJsonErr(err) && !isFlow(err)
+//@ spec func stackKept(e *Evaluator, top *stackFrame, err error) bool = (err == nil || isFlow(err)) ==> e.stackTop == top
+
+// Token text: the bytes of the source the token delimits.  Trusted: that a token's extent lies inside
+// the source of the lexer it is read with is an ownership fact (tokens are only used with the lexer that
+// produced them) which the contracts do not track.
+//@ func Lexer.GetString
+//@   trusted
+//@   pure
+
+//@ func Evaluator.error [C01,C11,C12]
+//@   requires e != nil && e.lexer != nil
+//@   updates $faulted
+//@   init $faulted = true
+//@   ensures[C11] latch: $faulted
+//@   ensures[C12] position-of-token: result.Message == msg && token.Pos < len(e.lexer.src) ==> lineAt(e.lexer.src, token.Pos - result.Col, result.SrcLine, result.Line)
+//@   ensures[C12] position-past-end: token.Pos >= len(e.lexer.src) ==> lineAt(e.lexer.src, len(e.lexer.src) - len(result.SrcLine), result.SrcLine, result.Line)
+//@   ensures[C12] message: result.Message == msg
+//@   modifies nothing
+
+//@ func Evaluator.evalExpr [C01,C08,C11]
+//@   requires evOK(e) && expr != nil && !$faulted
+//@   updates $faulted, $out
+//@   ensures[C01] result-or-error: err == nil ==> result0 != nil
+//@   ensures[C01] errkind: err == nil || isRT(err) || isFlow(err)
+//@   ensures[C08] stack-restored: stackKept(e, old(e.stackTop), err)
+//@   ensures[C11] fault-latched: $faulted <==> isFault(err)
+//@   ensures evok: evOK(e)
+
+//@ func Evaluator.evalStatement [C01,C08,C11]
+//@   requires evOK(e) && stmt != nil && !$faulted
+//@   updates $faulted, $out
+//@   ensures[C01] errkind: result == nil || isRT(result) || isFlow(result)
+//@   ensures[C08] stack-restored: stackKept(e, old(e.stackTop), result)
+//@   ensures[C11] fault-latched: $faulted <==> isFault(result)
+//@   ensures evok: evOK(e)
+
+//@ func Evaluator.evalExprList [C01,C08,C11]
+//@   requires evOK(e) && !$faulted
+//@   updates $faulted, $out
+//@   ensures[C01] all-cells: err == nil ==> len(result0) == len(exprs) && (forall k int :: 0 <= k && k < len(result0) ==> result0[k] != nil)
+//@   ensures[C01] errkind: err == nil || isRT(err) || isFlow(err)
+//@   ensures[C08] stack-restored: stackKept(e, old(e.stackTop), err)
+//@   ensures[C11] fault-latched: $faulted <==> isFault(err)
+//@   ensures evok: evOK(e)
+
+//@ func Evaluator.evalUnaryExpr [C01,C08,C11]
+//@   requires evOK(e) && expr != nil && !$faulted
+//@   updates $faulted, $out
+//@   ensures[C01] result-or-error: err == nil ==> result0 != nil
+//@   ensures[C01] errkind: err == nil || isRT(err) || isFlow(err)
+//@   ensures[C08] stack-restored: stackKept(e, old(e.stackTop), err)
+//@   ensures[C11] fault-latched: $faulted <==> isFault(err)
+//@   ensures evok: evOK(e)
+
+//@ func Evaluator.evalBinaryExpr [C01,C08,C11]
+//@   requires evOK(e) && expr != nil && !$faulted
+//@   updates $faulted, $out
+//@   ensures[C01] result-or-error: err == nil ==> result0 != nil
+//@   ensures[C01] errkind: err == nil || isRT(err) || isFlow(err)
+//@   ensures[C08] stack-restored: stackKept(e, old(e.stackTop), err)
+//@   ensures[C11] fault-latched: $faulted <==> isFault(err)
+//@   ensures evok: evOK(e)
+
+//@ func Evaluator.evalAssignment [C01,C08,C11]
+//@   requires evOK(e) && expr != nil && left != nil && right != nil && !$faulted
+//@   updates $faulted
+//@   ensures[C01] result-or-error: err == nil ==> result0 != nil
+//@   ensures[C01] errkind: err == nil || isRT(err)
+//@   ensures[C08] stack-untouched: e.stackTop == old(e.stackTop)
+//@   ensures[C11] fault-latched: $faulted <==> err != nil
+
+//@ func Evaluator.callFunction [C01,C08,C11]
+//@   requires evOK(e) && exp != nil && fn != nil && !$faulted
+//@   updates $faulted, $out
+//@   ensures[C01] result-or-error: err == nil ==> result0 != nil
+//@   ensures[C01] errkind: err == nil || isRT(err) || isFlow(err)
+//@   ensures[C01] return-consumed: err != errReturn
+//@   ensures[C08] stack-restored: stackKept(e, old(e.stackTop), err)
+//@   ensures[C11] fault-latched: $faulted <==> isFault(err)
+//@   ensures evok: evOK(e)
+
+//@ func Evaluator.evalCaseMatch [C01,C08,C11]
+//@   requires evOK(e) && value != nil && !$faulted
+//@   updates $faulted, $out
+//@   ensures[C01] errkind: err == nil || isRT(err) || isFlow(err)
+//@   ensures[C08] stack-restored: stackKept(e, old(e.stackTop), err)
+//@   ensures[C11] fault-latched: $faulted <==> isFault(err)
+//@   ensures evok: evOK(e)
+
+//@ func Evaluator.getIdentifier [C01,C08,C11]
+//@   requires evOK(e) && expr != nil && !$faulted
+//@   updates $faulted
+//@   ensures[C01] result-or-error: err == nil ==> result0 != nil
+//@   ensures[C01] errkind: err == nil || isRT(err)
+//@   ensures[C08] stack-untouched: e.stackTop == old(e.stackTop)
+//@   ensures[C11] fault-latched: $faulted <==> err != nil
+
+//@ func Evaluator.getVariable [C01,C08,C11]
+//@   requires evOK(e) && !$faulted
+//@   updates $faulted
+//@   ensures[C01] result-or-error: err == nil ==> result0 != nil
+//@   ensures[C01] errkind: err == nil || isPlainErr(err)
+//@   ensures[C08] stack-untouched: e.stackTop == old(e.stackTop)
+//@   ensures[C11] fault-latched: $faulted <==> err != nil
+
+//@ func Evaluator.evalString [C01,C11,C13]
+//@   requires !$faulted
+//@   updates $faulted
+//@   ensures[C01] result-or-error: err == nil ==> result0 != nil && result0.Value.Tag == ValueStr
+//@   ensures[C01] errkind: err == nil || isPlainErr(err)
+//@   ensures[C11] fault-latched: $faulted <==> err != nil
+//@   loop 0 invariant index: 0 <= i
+
+//@ func Evaluator.createSpeculativeObjects [C01,C11]
+//@   requires e != nil && specObj != nil && specObj.Value.ParentObj != nil && !$faulted
+//@   updates $faulted
+//@   ensures[C01] result-or-error: err == nil ==> result0 != nil
+//@   ensures[C01] errkind: err == nil || isPlainErr(err)
+//@   ensures[C11] fault-latched: $faulted <==> err != nil
+
+//@ func copyValue [C01,C09,C11]
+//@   requires from != nil && to != nil && !$faulted
+//@   updates $faulted
+//@   ensures[C09] returns-target: err == nil ==> result0 == to
+//@   ensures[C11] error-iff-function: (err != nil) <==> (from.Value.Tag == ValueFn || from.Value.Tag == ValueNativeFn)
+//@   ensures[C01] errkind: err == nil || isPlainErr(err)
+//@   ensures[C11] fault-latched: $faulted <==> err != nil
+//@   ensures[C09] tag-copied: err == nil ==> to.Value.Tag == old(from.Value.Tag)
+//@   modifies to.Value
+
+// Native functions (prototype methods and builtins) are called through Value.NativeFn.
+//@ functype Value.NativeFn
+//@   requires arg0 != nil && !$faulted
+//@   updates $faulted, $out
+//@   ensures[C01] errkind: result1 == nil || isPlainErr(result1)
+//@   ensures[C11] fault-latched: $faulted <==> result1 != nil
